@@ -5,6 +5,7 @@ import (
 	"fmt"
 	"os"
 	"path/filepath"
+	"sort"
 	"strconv"
 	"strings"
 	"testing"
@@ -187,4 +188,34 @@ func TestIsolate(t *testing.T) {
 		return
 	}
 	t.Fatal("no program of the case fails alone")
+}
+
+// TestCount (development aid, C14_COUNT=<n>): how many of n generated programs carry each label.
+func TestCount(t *testing.T) {
+	n, _ := strconv.Atoi(os.Getenv("C14_COUNT"))
+	if n == 0 {
+		t.Skip("C14_COUNT not set")
+	}
+	gen := rapid.Custom(genProg)
+	cnt := map[string]int{}
+	for i := 0; i < n; i++ {
+		p := gen.Example(i)
+		for _, f := range p.Feat {
+			cnt[f]++
+		}
+	}
+	var ks []string
+	for k := range cnt {
+		ks = append(ks, k)
+	}
+	sort.Strings(ks)
+	pre := strings.Split(os.Getenv("C14_COUNT_PREFIX"), ",")
+	for _, k := range ks {
+		for _, p := range pre {
+			if strings.HasPrefix(k, p) {
+				fmt.Printf("%-42s %5d %5.1f%%\n", k, cnt[k], 100*float64(cnt[k])/float64(n))
+				break
+			}
+		}
+	}
 }
